@@ -1929,6 +1929,12 @@ class Executor(Engine):
             c = self.contracts.get(dem)     # same-class call: the method's own contract
         if c is None:
             raise OutOfReach('virtual call without contract: %s' % key)
+        if c.transparent and dem in self.mod.by_demangled:
+            # declared devirtualisation (an assumption listed with the contract): the dynamic type is the static class, whose
+            # method is executed in place
+            self.stats['inlined'] += 1
+            self._push_frame(st, self.lookup_fn(dem), args, ins.dest, ins)
+            return
         if c.model is not None:
             return self._apply_model(st, ins, c, args, None)
         f2 = None
